@@ -108,8 +108,17 @@ func (ex *Exec) oblige(fr *Frame, kind, detail string, pc, goal Term, pos token.
 }
 
 func (ex *Exec) obligeEnv(fr *Frame, kind, detail string, pc, goal Term, pos token.Pos, env *Env) {
+	trivial := false
 	if goal.S == "true" {
-		return
+		// A contract clause that is syntactically true here (e.g. `arg2 ==
+		// document` where the argument IS the parameter) stays on the list under
+		// its name: a change that makes it non-trivial must meet a baseline
+		// entry, not appear as a new obligation. Safety conditions that fold to
+		// true are dropped as before.
+		if !(strings.HasPrefix(kind, "oncall") || strings.HasPrefix(kind, "ensures") || (strings.HasPrefix(kind, "loop") && !strings.HasSuffix(kind, ".exists"))) {
+			return
+		}
+		trivial = true
 	}
 	name := fr.label + "#" + kind
 	if detail != "" {
@@ -140,7 +149,7 @@ func (ex *Exec) obligeEnv(fr *Frame, kind, detail string, pc, goal Term, pos tok
 		goal = Or(when, goal)
 		knownHit = k
 	}
-	o := &Obligation{Name: name, Kind: kind, Fn: ex.topKey, Props: ex.props, Goal: goal, PC: pc, Pos2: ex.ld.posString(pos), Inputs: ex.inputs, Known: knownHit}
+	o := &Obligation{Name: name, Kind: kind, Fn: ex.topKey, Props: ex.props, Goal: goal, PC: pc, Pos2: ex.ld.posString(pos), Inputs: ex.inputs, Known: knownHit, Trivial: trivial}
 	ex.sc.Comment("obligation " + name)
 	ex.sc.AddObligation(o)
 	// assert-then-assume: execution continues past this point only if the check held
@@ -821,9 +830,33 @@ func (ex *Exec) storeElem(st *State, p ElemPtr, v Val) {
 		} else {
 			t = ex.term(lv, l.sort)
 		}
+		if l.sort == SBool && ex.useCount() {
+			// counting theory for []bool (see countPrelude): the count over any
+			// window changes by the difference at the stored index
+			row := ex.sc.Name("cntrow", Select(E, p.Arr))
+			row2 := ex.sc.Name("cntrow", Store(row, p.Idx, t))
+			ex.sc.Assert(T(SBool, fmt.Sprintf("(forall ((lo Int) (hi Int)) (! (= (cnt.bool %s lo hi) (+ (cnt.bool %s lo hi) (ite (and (<= lo %s) (< %s hi)) (- (ite %s 1 0) (ite (select %s %s) 1 0)) 0))) :pattern ((cnt.bool %s lo hi))))",
+				row2.S, row.S, p.Idx.S, p.Idx.S, t.S, row.S, p.Idx.S, row2.S)))
+			ex.heapSet(st, key, Store(E, p.Arr, row2))
+			continue
+		}
 		ex.heapSet(st, key, Store(E, p.Arr, Store(Select(E, p.Arr), p.Idx, t)))
 	}
 }
+
+// useCount: the contract under verification speaks about counttrue(...).
+func (ex *Exec) useCount() bool {
+	return ex.contract != nil && ex.contract.UsesCount
+}
+
+// countPrelude: cnt.bool(row, lo, hi) is the number of true entries of row in
+// [lo, hi). The theory is given by three facts, each a theorem of that
+// definition: it lies between 0 and the window length, it is 0 for the
+// all-false array (what make([]bool, n) gives), and a store changes it by the
+// difference at the stored index (asserted at every store, storeElem).
+const countPrelude = `(declare-fun cnt.bool ((Array Int Bool) Int Int) Int)
+(assert (forall ((r (Array Int Bool)) (lo Int) (hi Int)) (! (and (<= 0 (cnt.bool r lo hi)) (<= (cnt.bool r lo hi) (ite (>= hi lo) (- hi lo) 0))) :pattern ((cnt.bool r lo hi)))))
+(assert (forall ((lo Int) (hi Int)) (! (= (cnt.bool ((as const (Array Int Bool)) false) lo hi) 0) :pattern ((cnt.bool ((as const (Array Int Bool)) false) lo hi)))))`
 
 func globalKey(g *ssa.Global) string {
 	return "G." + g.Pkg.Pkg.Name() + "." + g.Name()
@@ -998,7 +1031,7 @@ func (ex *Exec) assignLoopOrdinals(fn *ssa.Function, ci *cfgInfo) {
 			if os.Getenv("GV_DEBUG_LOOPS") != "" {
 				fmt.Fprintf(os.Stderr, "  b%d cand %d [%s..%s] cover %d/%d\n", h.Index, i+1, ex.ld.posString(l.Pos()), ex.ld.posString(l.End()), cover, len(ps))
 			}
-			if cover*20 >= len(ps)*17 {
+			if cover*20 >= len(ps)*17 || (len(ps)-cover <= 1 && cover >= 3) {
 				if best < 0 || (l.End()-l.Pos()) < (loops[best].End()-loops[best].Pos()) {
 					best = i
 				}
